@@ -167,6 +167,9 @@ def setup(job):
     G.regex_probe = string_regex_probe(MLIRLexer, deep=bool(job.get("deep_probe")))
     if G.regex_probe["exponential"]:
         install_string_guard(MLIRLexer)
+    import gc
+    gc.collect()
+    gc.freeze()  # keep the preloaded ~all-dialects heap out of later full collections (they would cost ~1 s each)
     G.ready = True
 
 
@@ -558,6 +561,10 @@ def scale_variants(text):
             best = m
     if best is not None:
         out.append(("longest-repeat-doubled", text[:best.start()] + best.group(0) * 2 + text[best.end():]))
+    # cost driven by a number's magnitude (shape product, bit width): one more digit is the smallest repetition step
+    nums = sorted(re.finditer(r"\d{3,}", text[:200000]), key=lambda m: m.start() - 1000 * (m.end() - m.start()))[:3]
+    for i, m in enumerate(nums):
+        out.append((f"number-{i}-one-more-digit", text[:m.end()] + "0" + text[m.end():]))
     return out
 
 
@@ -645,7 +652,12 @@ def child_run(job, tasks, a, out: ChildOut):
                 b.c("over_budget_inputs")
                 prev = ladder[-2][1]["cpu"] if len(ladder) > 1 else None
                 g = (r1["cpu"] / max(prev, 4e-3)) if prev is not None else None
-                site = r1.get("slow_site") or r1.get("site") or fam[0]
+                if g is not None and len(ladder) > 2 and prev >= 0.05:
+                    # a measurable previous doubling must agree (>= 3x): one noisy sample does not make a verdict
+                    g0 = prev / max(ladder[-3][1]["cpu"], 4e-3)
+                    if g0 < 3.0:
+                        g = min(g, g0)
+                site = ("pump:" + fam[0]) if kind == "pump" else (r1.get("slow_site") or r1.get("site") or fam[0])
                 wit = {"family": fam[0], "prefix": fam[1], "unit": fam[2], "suffix": fam[3], "k": k1, "len": r1["len"],
                        "cpu_s": [round(r["cpu"], 4) for _, r in ladder], "ks": [kq for kq, _ in ladder], "budget_s": budget(r1["len"]),
                        "text_head": c07_mut.pump_text(fam, 4)[:400]}
